@@ -85,3 +85,14 @@ Example C13_nonvacuous :
     (Closed, [1000; 1002; 1004]) /\
   run_from 0 (One 10) [Advance 9; Advance 10; Advance 11] = (Closed, [10]).
 Proof. vm_compute. repeat split. Qed.
+
+(* SEVERAL TIMERS ON ONE CLOCK — every Set of the mock clock serves exactly the pending timers whose due time has been
+   reached and keeps exactly the others, whatever the order of registration and however far apart the due times lie *)
+Theorem C13_clock_serves_exactly_the_due : forall pending T i,
+  In i (fst (clock_set pending T)) <-> exists d, In (i, d) pending /\ d <= T.
+Proof. exact clock_serves_exactly_the_due. Qed.
+Print Assumptions C13_clock_serves_exactly_the_due.
+Theorem C13_clock_keeps_the_rest : forall pending T i d,
+  In (i, d) (snd (clock_set pending T)) <-> In (i, d) pending /\ T < d.
+Proof. exact clock_keeps_the_rest. Qed.
+Print Assumptions C13_clock_keeps_the_rest.
